@@ -183,7 +183,7 @@ func runChunker(r *rand.Rand, w *gen.C06Workload, g cfg) (chunks [][]outRec, don
 
 func runChunksCase(c *core.Ctx) {
 	log.SetLevel(log.WarnLevel)
-	dir := filepath.Join(c.Dir, fmt.Sprintf("chunks-%d", c.Idx))
+	dir := filepath.Join(c.Dir, fmt.Sprintf("chunks-%d%s", c.Idx, []string{"", "", "-job[7]?x*", ""}[c.Idx%4]))
 	os.MkdirAll(dir, 0o755)
 	defer os.RemoveAll(dir)
 	os.Setenv("TMPDIR", dir)
